@@ -574,3 +574,40 @@ Proof.
   - repeat constructor; vm_compute; try reflexivity; intros H; discriminate H.
   - vm_compute. repeat split.
 Qed.
+
+(** * The display name on the wire *)
+
+Lemma firstN_prefix : forall {A} n (l : list A), exists rest, l = firstN n l ++ rest.
+Proof.
+  intros A n l. revert n. induction l as [|x l IH]; intros n; cbn [firstN].
+  - destruct (n =? 0); exists []; reflexivity.
+  - destruct (n =? 0); [exists (x :: l); reflexivity|].
+    destruct (IH (N.pred n)) as [rest E]. exists rest. cbn [app]. rewrite <- E. reflexivity.
+Qed.
+
+(** whatever display name is configured, what goes on the wire fits the
+    one-byte length and is a prefix of it (unchanged if it already fits) *)
+Lemma cut_name_contract : forall cfg,
+  lenN (cut_name cfg) < 256 /\ (exists rest, cfg = cut_name cfg ++ rest) /\
+  (lenN cfg <= max_name_len -> cut_name cfg = cfg).
+Proof.
+  intros cfg. unfold cut_name. repeat split.
+  - rewrite firstN_lenN. unfold max_name_len. lia.
+  - apply firstN_prefix.
+  - intros H. apply firstN_all. exact H.
+Qed.
+
+(** the announcement theorem for an arbitrary configured display name *)
+Theorem announce_any_name_intact : forall origin cfg_name seq1 rs path seenby,
+  lenN origin = 16 ->
+  wfb idlist path = true -> wfb idlist seenby = true ->
+  forallb (wfb Route_c) rs = true ->
+  exists payloads,
+    announce origin (cut_name cfg_name) seq1 rs path seenby = map Some payloads /\
+    learned payloads = rs /\
+    Forall (fun p => lenN p <= max_payload) payloads /\
+    adv_keys payloads = keys_from origin seq1 (length payloads).
+Proof.
+  intros origin cfg seq1 rs path seenby Ho Wp Wsb Wr.
+  exact (announce_intact origin (cut_name cfg) seq1 rs path seenby Ho (proj1 (cut_name_contract cfg)) Wp Wsb Wr).
+Qed.
